@@ -274,7 +274,7 @@ pub fn c18(data: &[u8]) -> Option<c18::Case> {
             })
             .collect()
     };
-    Some(c18::Case { a, b, sep_a: sep(&mut u)?, sep_b: sep(&mut u)?, ignore_case: flags & 1 != 0 })
+    Some(c18::Case { a, b, sep_a: sep(&mut u)?, sep_b: sep(&mut u)?, ignore_case: flags & 1 != 0, many: 0 })
 }
 
 pub fn c06(data: &[u8]) -> Option<c06::Case> {
